@@ -414,6 +414,14 @@ def post_dec(ret, token, a, k):
     # in double precision, so a decoded onset is within a few single-precision spacings of the performed one (4e-7 relative
     # is about three spacings); durations go through 2**articulation and keep the wider tolerance
     tol = 4e-7 * max(1.0, rec["tol"] / 2e-5)
+    try:
+        # the timing parameter is single precision too: where a tempo curve runs far from the performance (the derivative
+        # method at sparse onsets) it is seconds to minutes large, and its own spacing bounds what can be reproduced
+        big = float(np.nanmax(np.abs(rec["params"]["timing"].astype(float)))) if len(rec["params"]) else 0.0
+        if np.isfinite(big):
+            tol = max(tol, 4e-7 * big)
+    except Exception:  # noqa
+        pass
     dur_tol = {sid: rec["tol"] for sid in rec["truth"]}
     if rec["norm"] == "beat_period_standardized":
         # beat period = standardized*std + mean in float32: its rounding is relative to |mean| + |standardized*std|, not to
